@@ -431,7 +431,9 @@ def gen_placeholders(ck: Check):
         yield [("block", "a", True, None, body)]
         yield [("for", "i", 1, 1, [("block", "a", True, None, body)])]
     overrides = ([T("X")], [T("X"), ("super",)], [("var", "g")], [("for", "j", 1, 2, [T("y")])], [])
-    for body in ([], [T(" ")], [T("\n")]):
+    # (whitespace-only defaults are left out: the engine suppresses the output of ANY block whose body is only whitespace text,
+    # an engine-wide rule -- ast.BlockNode -- that is not about inheritance)
+    for body in ([],):
         for hold in holders(body):
             for ov in overrides:
                 leaf = [("extends", "root"), ("node", ("block", "a", False, None, ov))]
